@@ -319,12 +319,14 @@ func outLast() any                               { return nil }
 //@ assumes result-list-is-not-the-document: found != nil && is[[]any](value) ==> !sameBase(found.list, as[[]any](value))
 //@ loop 1 invariant [C08 C14] list-apart: found != nil && is[[]any](value) ==> !sameBase(found.list, as[[]any](value))
 //@ loop 2 invariant [C08 C14] list-apart: found != nil && is[[]any](value) ==> !sameBase(found.list, as[[]any](value))
-//@ loop 1 invariant [C09 C14 C07] last-bound: exec.innermostArraySize == size
+//@ loop 1 invariant [C09 C14 C07] last-restored: exec.innermostArraySize == old(exec.innermostArraySize)
+//@ atcall execSubscript assert [C14 C09] last-is-this-array: exec.innermostArraySize == size && arg_arraySize == size && arg_value == value
+//@ atcall executeNextItem assert [C09] last-is-the-outer-array-again: exec.innermostArraySize == old(exec.innermostArraySize)
 //@ loop 1 invariant [C07 C20] no-pending: pendingErr() == nil && !pendingFailed() && resErr == nil && res != statusFailed
 //@ loop 1 invariant status: res == statusOK || res == statusNotFound
 //@ loop 1 invariant [C06 C07 C09 C11 C15] exists-mode-undecided: found == nil ==> res == statusNotFound
 //@ loop 2 invariant [C06 C07 C09 C11 C15] exists-mode-undecided: found == nil ==> res == statusNotFound
-//@ loop 2 invariant [C09 C14] last-bound: exec.innermostArraySize == size
+//@ loop 2 invariant [C09 C14] last-restored: exec.innermostArraySize == old(exec.innermostArraySize)
 //@ loop 2 invariant [C14] in-bounds: 0 <= indexFrom && indexFrom <= index && indexTo < size && size == len(array)
 //@ loop 2 invariant [C07 C20] no-pending: pendingErr() == nil && !pendingFailed() && resErr == nil && res != statusFailed
 //@ loop 2 invariant status: res == statusOK || res == statusNotFound
